@@ -11,7 +11,7 @@ use swc_core::{
         ast::*,
         atoms::Atom,
         utils::{private_ident, quote_ident, quote_str},
-        visit::{VisitMut, VisitMutWith},
+        visit::{Visit, VisitMut, VisitMutWith, VisitWith},
     },
     plugin::errors::HANDLER,
 };
@@ -1202,6 +1202,14 @@ where
             .iter()
             .for_each(|item| self.search_jsx_pragma(item.span()));
 
+        if self.options.resolve_type {
+            // type declarations are visible in their whole scope, also before they are written
+            module.visit_with(&mut TypeDeclarationCollector {
+                interfaces: &mut self.interfaces,
+                type_aliases: &mut self.type_aliases,
+            });
+        }
+
         module.visit_mut_children_with(self);
 
         if !self.injecting_consts.is_empty() {
@@ -1502,34 +1510,6 @@ where
         }
     }
 
-    fn visit_mut_ts_interface_decl(&mut self, ts_interface_decl: &mut TsInterfaceDecl) {
-        ts_interface_decl.visit_mut_children_with(self);
-        if self.options.resolve_type {
-            let key = (ts_interface_decl.id.sym.clone(), ts_interface_decl.id.ctxt);
-            if let Some(interface) = self.interfaces.get_mut(&key) {
-                interface
-                    .body
-                    .body
-                    .extend_from_slice(&ts_interface_decl.body.body);
-            } else {
-                self.interfaces.insert(key, ts_interface_decl.clone());
-            }
-        }
-    }
-
-    fn visit_mut_ts_type_alias_decl(&mut self, ts_type_alias_decl: &mut TsTypeAliasDecl) {
-        ts_type_alias_decl.visit_mut_children_with(self);
-        if self.options.resolve_type {
-            self.type_aliases.insert(
-                (
-                    ts_type_alias_decl.id.sym.clone(),
-                    ts_type_alias_decl.id.ctxt,
-                ),
-                (*ts_type_alias_decl.type_ann).clone(),
-            );
-        }
-    }
-
     fn visit_mut_call_expr(&mut self, call_expr: &mut CallExpr) {
         call_expr.visit_mut_children_with(self);
 
@@ -1575,6 +1555,38 @@ where
             call,
             "name",
             Expr::Lit(Lit::Str(quote_str!(name.sym.clone()))),
+        );
+    }
+}
+
+/// Registers every interface and type alias of the module, keyed by name and scope.
+struct TypeDeclarationCollector<'a> {
+    interfaces: &'a mut FnvHashMap<(Atom, SyntaxContext), TsInterfaceDecl>,
+    type_aliases: &'a mut FnvHashMap<(Atom, SyntaxContext), TsType>,
+}
+
+impl Visit for TypeDeclarationCollector<'_> {
+    fn visit_ts_interface_decl(&mut self, ts_interface_decl: &TsInterfaceDecl) {
+        ts_interface_decl.visit_children_with(self);
+        let key = (ts_interface_decl.id.sym.clone(), ts_interface_decl.id.ctxt);
+        if let Some(interface) = self.interfaces.get_mut(&key) {
+            interface
+                .body
+                .body
+                .extend_from_slice(&ts_interface_decl.body.body);
+        } else {
+            self.interfaces.insert(key, ts_interface_decl.clone());
+        }
+    }
+
+    fn visit_ts_type_alias_decl(&mut self, ts_type_alias_decl: &TsTypeAliasDecl) {
+        ts_type_alias_decl.visit_children_with(self);
+        self.type_aliases.insert(
+            (
+                ts_type_alias_decl.id.sym.clone(),
+                ts_type_alias_decl.id.ctxt,
+            ),
+            (*ts_type_alias_decl.type_ann).clone(),
         );
     }
 }
